@@ -37,3 +37,32 @@ contract(f"{R}::ACLRule.permit_frame_check",
          ensures=[("matches_spec", "result[1] == matches(self, frame)"),
                   ("permitted_spec", "result[0] == (matches(self, frame) and self.action == ACLAction.PERMIT)")],
          modifies=[])
+
+# ---- the list ---------------------------------------------------------------------------------------------------
+# every stored rule satisfies the pydantic type invariants
+spec("wf_acl(acl)", "forall(k, 0, len(acl._acl), acl._acl[k] is None or wf_rule(acl._acl[k])) and wf_rule(acl.implicit_rule)")
+# no earlier position holds a matching rule
+spec("none_match_before(acl, f, n)", "forall(j, 0, n, acl._acl[j] is None or not matches(acl._acl[j], f))")
+
+contract(f"{R}::AccessControlList.is_permitted",
+         props=["C07"],
+         requires=["wf_acl(self)",
+                   # distinct positions hold distinct rule objects, none of them the implicit rule (established by
+                   # add_rule, which always allocates a fresh ACLRule, and by __init__)
+                   "forall(a, 0, len(self._acl), forall(b, 0, len(self._acl), implies(a != b and self._acl[a] is not None, self._acl[a] is not self._acl[b])))",
+                   "forall(a, 0, len(self._acl), self._acl[a] is not self.implicit_rule)"],
+         ensures=[
+             # verdict = that of the lowest-positioned matching rule ...
+             ("first_match", "forall(p, 0, len(self._acl), implies("
+                             "self._acl[p] is not None and matches(self._acl[p], frame) and none_match_before(self, frame, p),"
+                             "result[1] is self._acl[p] and result[0] == (self._acl[p].action == ACLAction.PERMIT)))"),
+             # ... else the implicit action
+             ("implicit", "implies(none_match_before(self, frame, len(self._acl)),"
+                          "result[1] is self.implicit_rule and result[0] == (self.implicit_action == ACLAction.PERMIT))"),
+             # exactly the deciding rule's hit counter goes up by one, every other rule's is unchanged (whole view)
+             ("counters", "forall_obj(r, ACLRule, r.match_count == old(r.match_count) + (1 if r is result[1] else 0))"),
+         ],
+         modifies=["ACLRule.match_count"],
+         loops={0: {"inv": [("scan", "none_match_before(self, frame, _i)"),
+                            ("rule_none", "rule is None"),
+                            ("counts", "forall_obj(r, ACLRule, r.match_count == old(r.match_count))")]}})
